@@ -239,31 +239,10 @@ Proof.
   destruct zs as [|z zs]; [congruence|]. unfold guard_byte_many. now rewrite many_guard_pass.
 Qed.
 
-Lemma fold_pick_in : forall (A : Type) (c : A -> A -> bool) l x,
-  In (fold_left (fun m y => if c y m then y else m) l x) (x :: l).
-Proof.
-  induction l; intros x; cbn [fold_left]; [now left|].
-  destruct (IHl (if c a x then a else x)) as [H|H].
-  - rewrite <- H. destruct (c a x); [right; now left|now left].
-  - right; now right.
-Qed.
-Lemma pymax_in : forall l x, In (pymax x l) (x :: l).
-Proof. intros. unfold pymax. apply (fold_pick_in pyval (fun y m => xgt (xnum_of y) (xnum_of m))). Qed.
-Lemma pymin_in : forall l x, In (pymin x l) (x :: l).
-Proof. intros. unfold pymin. apply (fold_pick_in pyval (fun y m => xlt (xnum_of y) (xnum_of m))). Qed.
-
-Lemma float_many_pass : forall ct items, items <> [] ->
-  Forall (fun y => is_num y = true /\ float_isinf_conv (snd ct) y = inr false) items ->
+Lemma float_many_pass : forall ct items,
+  Forall (fun y => float_isinf_conv (snd ct) y = inr false) items ->
   float_validate_many ct items = None.
-Proof.
-  intros ct items Hne H. unfold float_validate_many.
-  assert (Hn : forallb is_num items = true).
-  { apply forallb_forall. intros x Hx. rewrite Forall_forall in H. now apply H. }
-  rewrite Hn. cbn [negb]. destruct items as [|x r]; [congruence|].
-  rewrite Forall_forall in H.
-  destruct (H _ (pymax_in r x)) as [_ H1]. destruct (H _ (pymin_in r x)) as [_ H2].
-  now rewrite H1, H2.
-Qed.
+Proof. induction 1; cbn [float_validate_many]; [reflexivity|]. now rewrite H. Qed.
 
 (* ------------------------------------------------------------------ *)
 (* one element: the loaded value passes validation and stores back the same bytes *)
@@ -377,6 +356,17 @@ Proof.
     + rewrite splice_nth_outside by (rewrite ?app_length; cbn [length]; lia). apply Hz. lia.
 Qed.
 
+Lemma splice_zero_noop : forall cur off n, (off + n <= length cur)%nat ->
+  (forall j, (off <= j < off + n)%nat -> nth j cur 0 = 0) -> splice cur off (repeat 0 n) = cur.
+Proof.
+  intros cur off n Hl Hz. apply nth_ext_eq.
+  - apply splice_length. rewrite repeat_length. exact Hl.
+  - intros j Hj. rewrite splice_length in Hj by (rewrite repeat_length; exact Hl).
+    destruct (Nat.ltb_spec j off); [apply splice_nth_outside; rewrite repeat_length; lia|].
+    destruct (Nat.ltb_spec j (off + n)); [|apply splice_nth_outside; rewrite repeat_length; lia].
+    rewrite splice_nth_inside by (rewrite repeat_length; lia). rewrite nth_repeat. symmetry. apply Hz. lia.
+Qed.
+
 (* ------------------------------------------------------------------ *)
 (* one leaf                                                             *)
 
@@ -469,11 +459,16 @@ Proof.
                 | Some x => (Some x, cur)
                 | None => match encode_ascii (PStr p) with
                           | inl e => (Some e, cur)
-                          | inr cs => ok_or cur off (s_set n cs)
+                          | inr cs =>
+                              let m0 := if (1 <? n)%nat && (length cs <? n)%nat
+                                        then splice cur off (repeat 0 n) else cur in
+                              ok_or m0 off (s_set n cs)
                           end
                 end) = (None, splice cur off bs)).
   { unfold string_validate_one, guard_string_len, encode_ascii.
-    replace (Z.of_nat n - 1 <? Z.of_nat (length p)) with false by lia. rewrite Hpa. cbn [negb].
+    replace (Z.of_nat n - 1 <? Z.of_nat (length p)) with false by lia. rewrite Hpa. cbn [negb]. cbv zeta.
+    replace (if (1 <? n)%nat && (length p <? n)%nat then splice cur off (repeat 0 n) else cur) with cur
+      by (destruct ((1 <? n)%nat && (length p <? n)%nat); [|reflexivity]; symmetry; apply splice_zero_noop; [lia|exact Hz]).
     unfold s_set. rewrite Hidem. replace (length p <? n)%nat with true by lia. cbn [ok_or]. f_equal.
     rewrite Hbs. apply splice_zero_tail; try lia. intros j Hj. apply Hz. lia. }
   split; [exact Hs|intros _; exact Hs].
@@ -551,9 +546,7 @@ Proof.
       + apply Forall2_map_same. apply Forall_forall. intros c Hin. unfold elem_store. cbn [elem_ct].
         apply float_store_load; auto. now apply HE.
       + lia.
-    - destruct C; [cbn [length] in Hcl; lia|discriminate].
-    - apply Forall_forall. intros y Hy. apply in_map_iff in Hy as (c & <- & Hin). split; [reflexivity|].
-      now apply HE. }
+    - apply Forall_forall. intros y Hy. apply in_map_iff in Hy as (c & <- & Hin). now apply HE. }
   split; [exact Hs|]. intros Hcan. rewrite forallb_forall in Hcan. cbn [jrt]. rewrite map_map.
   rewrite (map_ext_in _ (fun c => PFloat (f_load (snd ct) c))); [exact Hs|].
   intros c Hin. apply (float_elem_jrt vid); auto.
